@@ -11,7 +11,8 @@ The complete list of what extraction drops/changes (reported with counts in ever
   X4  a `type ... opaque` directive declares the named repo type as an external_body struct without
       fields (the type must exist in the named file; verified code can then not look inside it)
   X5  a nested `fn` named by `hoist=` is cut out of its parent's body (it is emitted by its own
-      directive at top level; nested fns cannot capture, so this is meaning-preserving)
+      directive at top level; nested fns cannot capture, so this is meaning-preserving); `hoistitem=enum:N|struct:N|use:PATH`
+      moves a nested type definition or `use` declaration in front of the function (Verus rejects item statements)
   N1  match arm `P1 | P2 if g => e`  ->  `P1 if g => e, P2 if g => e`   (only rewrite of executable text;
       before/after printed in evidence)
   N2  `for pat in expr`  ->  `for pat in NAME: expr`  (Verus syntax naming the ghost iterator; `loop k var=NAME`)
@@ -371,6 +372,30 @@ def build_fn(gen, d):
             cuts.append((a, k + 1))
             hoisted_regions.append((a, k + 1))
             gen.drops['X5_hoisted'] += 1
+    hoisted_items = []
+    for h in opts.get('hoistitem', []):
+        kind, _, nm = h.partition(':')
+        if kind in ('enum', 'struct'):
+            cands = [m.start() for m in re.finditer(r'\b%s\s+%s\b' % (kind, re.escape(nm)), body_masked)]
+            if len(cands) != 1:
+                raise LostAnchor('%s: hoistitem %s found %d times' % (name, h, len(cands)))
+            p0 = cands[0]
+            j0 = first_body_brace(body_masked, p0, len(body_masked))
+            k0 = match_close(body_masked, j0) if body_masked[j0] == '{' else j0
+            a0 = attrs_start(body, body_masked, p0)
+        elif kind == 'use':
+            cands = [m.start() for m in re.finditer(r'\buse\s+%s\s*;' % re.escape(nm), body_masked)]
+            if len(cands) != 1:
+                raise LostAnchor('%s: hoistitem %s found %d times' % (name, h, len(cands)))
+            p0 = cands[0]
+            k0 = body_masked.index(';', p0)
+            a0 = p0
+        else:
+            raise Unsupported('hoistitem kind %s' % kind)
+        cuts.append((a0, k0 + 1))
+        hoisted_regions.append((a0, k0 + 1))
+        hoisted_items.append(body[a0:k0 + 1])
+        gen.drops['X5_hoisted'] += 1
     loops = [l for l in loops if not any(a <= l[1] < b for a, b in hoisted_regions)]
     rec['loops'] = len(loops)
 
@@ -469,6 +494,8 @@ def build_fn(gen, d):
             pass
 
     # --- emit ---------------------------------------------------------------------------------
+    for hi in hoisted_items:
+        gen.emit(hi.strip() + ' // X5: item hoisted out of the body of %s' % name, item_id)
     if impl_header:
         gen.emit(impl_header + ' {', item_id)
     for a in opts.get('attr', []):
@@ -575,14 +602,23 @@ def build_type(gen, d):
         gen.drops['X4_opaque_types'] += 1
         m = re.match(r'\s*(pub(\([^)]*\))?\s+)?(struct|enum)\s+(\w+)\s*(<[^>{(]*>)?', src[kw_line_start:it.end])
         generics = m.group(5) or ''
+        lifetimes = []
         if generics:
-            raise Unsupported('opaque generic type %s' % d.sel)
+            params = [x.strip() for x in generics.strip('<>').split(',') if x.strip()]
+            if not all(x.startswith("'") for x in params):
+                raise Unsupported('opaque type %s with type parameters' % d.sel)
+            lifetimes = params
         gen.emit('#[verifier::external_body]', item_id)
         gen.emit('#[verifier::external_derive]', item_id)
         for a in kept:
             if a.startswith('#[derive'):
                 gen.emit(a, item_id)
-        gen.emit('pub struct %s { _opaque: () } // X4: fields of %s:%s not extracted' % (d.sel, d.file, d.sel), item_id)
+        if lifetimes:
+            ph = ', '.join('&%s ()' % l for l in lifetimes)
+            gen.emit('pub struct %s<%s> { _opaque: core::marker::PhantomData<(%s,)> } // X4: fields of %s:%s not extracted'
+                     % (d.sel, ', '.join(lifetimes), ph, d.file, d.sel), item_id)
+        else:
+            gen.emit('pub struct %s { _opaque: () } // X4: fields of %s:%s not extracted' % (d.sel, d.file, d.sel), item_id)
     else:
         if 'xderive' in d.opts:
             # derived impls are compiled but left outside verification (their specs, if needed, are assumed explicitly)
